@@ -19,38 +19,41 @@ enum V { VALID = 0, INVALID = 1, SILENT = 2 };
 inline const char* name(V v) { return v == VALID ? "valid" : v == INVALID ? "invalid" : "silent"; }
 inline V both(V x, V y) { return (x == INVALID || y == INVALID) ? INVALID : (x == SILENT || y == SILENT) ? SILENT : VALID; }
 inline bool fin(double x) { return std::isfinite(x); }
+// name of the documented rule that decided the last INVALID verdict (for reports and known-finding keys)
+inline const char*& rule() { static const char* r = ""; return r; }
+inline V inv(const char* why) { rule() = why; return INVALID; }
 
 // "a or (1 - f) a is not positive" + non-finite rejected.  (1 - f) a that over/underflows in double although a
 // and f are individually legal is not decided by the documentation.
 inline V ellipsoid(double a, double f) {
-  if (!(fin(a) && a > 0)) return INVALID;
-  if (!(fin(f) && f < 1)) return INVALID;
+  if (!(fin(a) && a > 0)) return inv("equatorial-radius");
+  if (!(fin(f) && f < 1)) return inv("flattening");
   double b = a * (1 - f);
   if (!(fin(b) && b > 0)) return SILENT;
   return VALID;
 }
 // AuxLatitude::axes(a, b): "a or b is not positive"
-inline V axes(double a, double b) { return (fin(a) && a > 0 && fin(b) && b > 0) ? VALID : INVALID; }
+inline V axes(double a, double b) { return (fin(a) && a > 0 && fin(b) && b > 0) ? VALID : inv("semi-axes"); }
 // "k0 is not positive"
-inline V scale(double k) { return (fin(k) && k > 0) ? VALID : INVALID; }
+inline V scale(double k) { return (fin(k) && k > 0) ? VALID : inv("scale"); }
 // "stdlat is not in [-90, 90]"
-inline V lat_closed(double lat) { return (std::fabs(lat) <= 90) ? VALID : INVALID; }
+inline V lat_closed(double lat) { return (std::fabs(lat) <= 90) ? VALID : inv("latitude-range"); }
 // "lat is not in (-90, 90)"  (Albers SetScale) / "(-90, 90]" (PolarStereographic SetScale)
-inline V lat_open(double lat) { return (std::fabs(lat) < 90) ? VALID : INVALID; }
-inline V lat_ps(double lat) { return (lat > -90 && lat <= 90) ? VALID : INVALID; }
+inline V lat_open(double lat) { return (std::fabs(lat) < 90) ? VALID : inv("latitude-range"); }
+inline V lat_ps(double lat) { return (lat > -90 && lat <= 90) ? VALID : inv("latitude-range"); }
 
 // ---- ellipsoid-only classes: Geodesic, GeodesicExact, Geocentric, Ellipsoid, Rhumb, AuxLatitude, DAuxLatitude
 inline V af(double a, double f) { return ellipsoid(a, f); }
 // ---- TransverseMercator(a, f, k0, exact, extendp): + "extendp not allowed if !exact" (TransverseMercator.hpp)
 inline V tm(double a, double f, double k0, bool exact, bool extendp) {
   V v = both(ellipsoid(a, f), scale(k0));
-  if (extendp && !exact) return INVALID;
+  if (extendp && !exact) return inv("extendp-without-exact");
   if (exact && v == VALID && !(f > 0)) return SILENT;      // the exact method is Lee's, documented for f > 0 only in TransverseMercatorExact
   return v;
 }
 // ---- TransverseMercatorExact(a, f, k0, extendp): "a, f, or k0 is not positive"
 inline V tmexact(double a, double f, double k0) {
-  if (!(fin(f) && f > 0)) return INVALID;
+  if (!(fin(f) && f > 0)) return inv("flattening-not-positive");
   return both(ellipsoid(a, f), scale(k0));
 }
 // ---- PolarStereographic(a, f, k0)
@@ -61,35 +64,35 @@ inline V conic1(double a, double f, double stdlat, double k0) { return both(both
 // stdlat2".  Albers: "or if stdlat1 and stdlat2 are opposite poles".
 inline V lcc2(double a, double f, double l1, double l2, double k1) {
   V v = both(both(ellipsoid(a, f), scale(k1)), both(lat_closed(l1), lat_closed(l2)));
-  if (v != INVALID && (std::fabs(l1) == 90 || std::fabs(l2) == 90) && l1 != l2) return INVALID;
+  if (v != INVALID && (std::fabs(l1) == 90 || std::fabs(l2) == 90) && l1 != l2) return inv("pole-and-different-parallel");
   return v;
 }
 inline V albers2(double a, double f, double l1, double l2, double k1) {
   V v = both(both(ellipsoid(a, f), scale(k1)), both(lat_closed(l1), lat_closed(l2)));
-  if (v != INVALID && std::fabs(l1) == 90 && std::fabs(l2) == 90 && l1 != l2) return INVALID;
+  if (v != INVALID && std::fabs(l1) == 90 && std::fabs(l2) == 90 && l1 != l2) return inv("opposite-poles");
   return v;
 }
 // ---- two parallels by sine and cosine: the latitude must be in [-90, 90] (cos >= 0); a pair that is not a
 // (scaled) sine/cosine pair -- |sin| > 1, cos > 1, both zero, non-finite -- is invalid; pairs inside the unit
 // square that are not normalised are not addressed by the documentation.
 inline V sincos_pair(double s, double c) {
-  if (!(fin(s) && fin(c))) return INVALID;
-  if (std::signbit(c) && c != 0) return INVALID;          // latitude outside [-90, 90]
+  if (!(fin(s) && fin(c))) return inv("sincos-not-finite");
+  if (std::signbit(c) && c != 0) return inv("latitude-range");          // latitude outside [-90, 90]
   if (std::signbit(c)) return SILENT;                      // cos = -0: the documentation does not say
-  if (s == 0 && c == 0) return INVALID;
-  if (std::fabs(s) > 1 || c > 1) return INVALID;
+  if (s == 0 && c == 0) return inv("sincos-both-zero");
+  if (std::fabs(s) > 1 || c > 1) return inv("sincos-above-one");
   double r = std::hypot(s, c);
   if (std::fabs(r - 1) > 1e-9) return SILENT;
   return VALID;
 }
 inline V lcc2sc(double a, double f, double s1, double c1, double s2, double c2, double k1) {
   V v = both(both(ellipsoid(a, f), scale(k1)), both(sincos_pair(s1, c1), sincos_pair(s2, c2)));
-  if (v != INVALID && (c1 == 0 || c2 == 0) && !(c1 == c2 && s1 == s2)) return INVALID;
+  if (v != INVALID && (c1 == 0 || c2 == 0) && !(c1 == c2 && s1 == s2)) return inv("pole-and-different-parallel");
   return v;
 }
 inline V albers2sc(double a, double f, double s1, double c1, double s2, double c2, double k1) {
   V v = both(both(ellipsoid(a, f), scale(k1)), both(sincos_pair(s1, c1), sincos_pair(s2, c2)));
-  if (v != INVALID && c1 == 0 && c2 == 0 && s1 * s2 <= 0) return INVALID;
+  if (v != INVALID && c1 == 0 && c2 == 0 && s1 * s2 <= 0) return inv("opposite-poles");
   return v;
 }
 // ---- SetScale(lat, k)
@@ -100,10 +103,10 @@ inline V ps_setscale(double lat, double k) { return both(scale(k), lat_ps(lat));
 // omega" other than being finite (property: non-finite rejected); physical form (J2) has further restrictions
 // that the header gives only qualitatively -> SILENT unless a is invalid.
 inline V normalgravity(double a, double GM, double omega, double fJ2, bool geometricp) {
-  if (!(fin(a) && a > 0)) return INVALID;
-  if (!fin(GM) || !fin(omega) || !fin(fJ2)) return INVALID;
+  if (!(fin(a) && a > 0)) return inv("equatorial-radius");
+  if (!fin(GM) || !fin(omega) || !fin(fJ2)) return inv("non-finite-parameter");
   if (!geometricp) return SILENT;
-  if (!(fJ2 < 1)) return INVALID;
+  if (!(fJ2 < 1)) return inv("flattening");
   double b = a * (1 - fJ2), w2 = omega * omega, aw2 = (omega * a) * (omega * a);
   if (!(fin(b) && b > 0) || !fin(w2) || !fin(aw2)) return SILENT;
   return VALID;
@@ -111,8 +114,8 @@ inline V normalgravity(double a, double GM, double omega, double fJ2, bool geome
 // ---- EllipticFunction(k2, alpha2[, kp2, alphap2]): k2, alpha2 in (-inf, 1]; kp2, alphap2 in [0, inf).
 // NaN is accepted on purpose ("needed for GeodesicExact", source comment) -> SILENT; so is -inf / +inf at the
 // open ends.
-inline V ell_le1(double x) { return std::isnan(x) ? SILENT : x > 1 ? INVALID : std::isinf(x) ? SILENT : VALID; }
-inline V ell_ge0(double x) { return std::isnan(x) ? SILENT : x < 0 ? INVALID : std::isinf(x) ? SILENT : VALID; }
+inline V ell_le1(double x) { return std::isnan(x) ? SILENT : x > 1 ? inv("parameter-above-one") : std::isinf(x) ? SILENT : VALID; }
+inline V ell_ge0(double x) { return std::isnan(x) ? SILENT : x < 0 ? inv("complement-negative") : std::isinf(x) ? SILENT : VALID; }
 inline V elliptic2(double k2, double alpha2) { return both(ell_le1(k2), ell_le1(alpha2)); }
 inline V elliptic4(double k2, double alpha2, double kp2, double alphap2) { return both(both(ell_le1(k2), ell_le1(alpha2)), both(ell_ge0(kp2), ell_ge0(alphap2))); }
 // ---- Intersect(Geodesic(a, f)): "validated for -1/4 <= f <= 1/5 ... sufficiently far outside the range ... an
@@ -123,21 +126,22 @@ inline V intersect(double a, double f) {
   return (f >= -0.25 && f <= 0.2) ? VALID : SILENT;
 }
 // ---- NearestNeighbor(pts, dist, bucket): "bucket is out of bounds" -- 0 <= bucket <= maxbucket (10)
-inline V nn_bucket(long long bucket) { return (bucket >= 0 && bucket <= 10) ? VALID : INVALID; }
+inline V nn_bucket(long long bucket) { return (bucket >= 0 && bucket <= 10) ? VALID : inv("bucket-range"); }
 // ---- SphericalHarmonic(C, S, N, a, norm): "N does not satisfy N >= -1", "C or S is not big enough"
 inline V sph(long long N, long long csize, long long ssize) {
-  if (N < -1) return INVALID;
+  if (N < -1) return inv("degree-range");
   long long need_c = (N + 1) * (N + 2) / 2, need_s = need_c - (N + 1);
-  if (N >= 0 && (csize < need_c || ssize < need_s)) return INVALID;
+  if (N >= 0 && (csize < need_c || ssize < need_s)) return inv("arrays-too-small");
   return VALID;
 }
 // (C, S, N, nmx, mmx, a, norm): "N, nmx, and mmx do not satisfy N >= nmx >= mmx >= -1"
 inline V sph3(long long N, long long nmx, long long mmx, long long csize, long long ssize) {
-  if (!(N >= nmx && nmx >= mmx && mmx >= -1)) return INVALID;
+  if (!(N >= nmx && nmx >= mmx && mmx >= -1)) return inv("degree-range");
+  if (mmx == -1 && nmx != -1) return SILENT;     // the source comment restricts mmx = -1 to nmx = -1 ("the sums are empty"); the header does not
   if (N < 0) return VALID;
   // storage is column-major over the full (N, N) triangle; the last element used is (nmx, mmx)
   auto idx = [&](long long n, long long m) { return m * N - m * (m - 1) / 2 + n; };
-  if (mmx >= 0 && (csize <= idx(nmx, mmx) || (mmx > 0 && ssize <= idx(nmx, mmx) - (N + 1)))) return INVALID;
+  if (mmx >= 0 && (csize <= idx(nmx, mmx) || (mmx > 0 && ssize <= idx(nmx, mmx) - (N + 1)))) return inv("arrays-too-small");
   return VALID;
 }
 
